@@ -81,7 +81,7 @@ MAdjust(c, d, a) == CASE a = "f" -> MAdjF(c, d) [] a = "p" -> MAdjP(c, d) [] a =
 
 \* _populate: int2dt as a sequence (position i here = clock i - 1 there); dt2int = PosIn
 BTable(c) == BdaysFromTo(c, c.lo, c.hi)
-PosIn(tab, d) == IF \E i \in 1..Len(tab) : tab[i] = d THEN CHOOSE i \in 1..Len(tab) : tab[i] = d ELSE 0
+PosIn(tab, d) == LET S == {i \in 1..Len(tab) : tab[i] = d} IN IF S = {} THEN 0 ELSE CHOOSE i \in S : TRUE
 At(tab, i) == IF i \in 1..Len(tab) THEN tab[i] ELSE KeyErr
 
 \* add, |n| <= 1: res = t + n*DAY; while is_holiday(res): res += n*DAY
@@ -103,20 +103,23 @@ MClock(c, tab, t) == IF PosIn(tab, t) # 0 THEN PosIn(tab, t) - 1 ELSE PosIn(tab,
 \* Part 3 - queries
 \* =============================================================================================
 \* A query is a record [op, t, n, u, a]: t, u days, n an int, a \in {"", "f", "p", "m"} ("" = the
-\* calendar's own convention); fields a query does not use are 0 / "".  Answers are sequences of
+\* calendar's own convention, anything else = the convention passed with the call, which then
+\* replaces the calendar's own); fields a query does not use are 0 / "".  Answers are sequences of
 \* integers (days as ordinals, booleans as 0/1).
-\*   is_bday(t)  is_holiday(t)  adjust(t, a)  add(t, n, a)  dt_bump(t, 'nb')  bump0(t, n) = dt_bump(t, '+0b' | '-0b')
-\*   bdays(t, u, a)  drange(t, u, '1b')  clock_diff = clock(u) - clock(t)
+\*   is_bday(t)  is_holiday(t)  adjust(t, a)  add(t, n, a)  dt_bump(t, 'nb', a)  bump0(t, n, a) = dt_bump(t, '+0b' | '-0b', a)
+\*   bdays(t, u, a)  drange(t, u, '1b') (u < t: the empty list unless both adjust to one day)  clock_diff = clock(u) - clock(t)
 \*   add_inv = add(add(t, n), -n)   bdays_add = bdays(t, add(t, n))   add_twice = add(add(t, n), n), n = +-1
+\*   add_split = add(add(t, n - s), s), s = sign(n)  (the indexed path against the single step on top of it)
 Adj(c, q) == IF q.a = "" THEN c.adj ELSE q.a
 B(b) == IF b THEN 1 ELSE 0
+Sgn(n) == IF n > 0 THEN 1 ELSE IF n < 0 THEN -1 ELSE 0
 
 Answer(c, q) ==
     CASE q.op = "is_bday"    -> <<B(IsBday(c, q.t))>>
       [] q.op = "is_holiday" -> <<B(~IsBday(c, q.t))>>
       [] q.op = "adjust"     -> <<Adjust(c, q.t, Adj(c, q))>>
       [] q.op = "add"        -> <<AddCount(c, q.t, q.n, Adj(c, q))>>
-      [] q.op = "dt_bump"    -> <<AddCount(c, q.t, q.n, c.adj)>>
+      [] q.op = "dt_bump"    -> <<AddCount(c, q.t, q.n, Adj(c, q))>>
       [] q.op = "bump0"      -> <<IF q.n >= 0 THEN AdjF(c, q.t) ELSE AdjP(c, q.t)>>
       [] q.op = "bdays"      -> <<Bdays(c, q.t, q.u, Adj(c, q))>>
       [] q.op = "drange"     -> DrangeB(c, q.t, q.u)
@@ -124,6 +127,7 @@ Answer(c, q) ==
       [] q.op = "add_inv"    -> <<AddCount(c, AddCount(c, q.t, q.n, Adj(c, q)), 0 - q.n, Adj(c, q))>>
       [] q.op = "bdays_add"  -> <<Bdays(c, q.t, AddCount(c, q.t, q.n, Adj(c, q)), Adj(c, q))>>
       [] q.op = "add_twice"  -> <<AddCount(c, AddCount(c, q.t, q.n, Adj(c, q)), q.n, Adj(c, q))>>
+      [] q.op = "add_split"  -> <<AddCount(c, AddCount(c, q.t, q.n - Sgn(q.n), Adj(c, q)), Sgn(q.n), Adj(c, q))>>
 
 \* Named deviation IsHolidayUnpinned: the statement defines is_bday only.  is_holiday is accepted
 \* both as "not a business day" (today's code) and as "a listed holiday".
@@ -144,15 +148,17 @@ InDomain(c, q) ==
     CASE q.op \in {"is_bday", "is_holiday"} -> InRange(c, q.t)
       [] q.op = "adjust"  -> AllIn(c, {q.t, Adjust(c, q.t, a)})
       [] q.op = "bump0"   -> AllIn(c, {q.t, AdjF(c, q.t), AdjP(c, q.t)})
-      [] q.op \in {"add", "dt_bump", "add_inv", "bdays_add", "add_twice"} ->
+      [] q.op \in {"add", "dt_bump", "add_inv", "bdays_add", "add_twice", "add_split"} ->
             /\ AllIn(c, {q.t, Adjust(c, q.t, a), AddCount(c, q.t, q.n, a)})
             /\ q.op = "add_twice" => q.n \in {-1, 1} /\ InRange(c, AddCount(c, q.t, 2 * q.n, a))
+            /\ q.op = "add_split" => q.n # 0
       [] q.op \in {"bdays", "clock_diff"} -> AllIn(c, {q.t, q.u, Adjust(c, q.t, a), Adjust(c, q.u, a)})
-      [] q.op = "drange"  -> q.t <= q.u /\ AllIn(c, {q.t, q.u, Adjust(c, q.t, c.adj), Adjust(c, q.u, c.adj)})
+      [] q.op = "drange"  -> AllIn(c, {q.t, q.u, Adjust(c, q.t, c.adj), Adjust(c, q.u, c.adj)})
 
 \* does the code build the table for this query?  (mechanism; used by the registry machine)
 Populates(q) == \/ q.op \in {"bdays", "drange", "clock_diff", "bdays_add"}
                 \/ q.op \in {"add", "dt_bump", "add_inv"} /\ (q.n > 1 \/ q.n < -1)
+                \/ q.op = "add_split" /\ (q.n > 2 \/ q.n < -2)
 
 \* what the code of today computes for q, given the table object `tab` it holds or builds
 MechAnswer(c, tab, q) ==
@@ -161,30 +167,61 @@ MechAnswer(c, tab, q) ==
       [] q.op = "is_holiday" -> <<B(MIsHol(c, q.t))>>
       [] q.op = "adjust"     -> <<MAdjust(c, q.t, a)>>
       [] q.op = "add"        -> <<MAdd(c, tab, q.t, q.n, a)>>
-      [] q.op = "dt_bump"    -> <<MAdd(c, tab, q.t, q.n, c.adj)>>
-      [] q.op = "bump0"      -> <<MAdd(c, tab, IF q.n >= 0 THEN MAdjF(c, q.t) ELSE MAdjP(c, q.t), 0, c.adj)>>
+      [] q.op = "dt_bump"    -> <<MAdd(c, tab, q.t, q.n, a)>>
+      [] q.op = "bump0"      -> <<MAdd(c, tab, IF q.n >= 0 THEN MAdjF(c, q.t) ELSE MAdjP(c, q.t), 0, a)>>
       [] q.op = "bdays"      -> MBdays(c, tab, q.t, q.u, a)
       [] q.op = "drange"     -> MDrange(c, tab, q.t, q.u)
       [] q.op = "clock_diff" -> <<MClock(c, tab, q.u) - MClock(c, tab, q.t)>>
       [] q.op = "add_inv"    -> <<MAdd(c, tab, MAdd(c, tab, q.t, q.n, a), 0 - q.n, a)>>
       [] q.op = "bdays_add"  -> MBdays(c, tab, q.t, MAdd(c, tab, q.t, q.n, a), a)
       [] q.op = "add_twice"  -> <<MAdd(c, tab, MAdd(c, tab, q.t, q.n, a), q.n, a)>>
+      [] q.op = "add_split"  -> <<MAdd(c, tab, MAdd(c, tab, q.t, q.n - Sgn(q.n), a), Sgn(q.n), a)>>
 
 \* =============================================================================================
 \* Part 4 - the registry  calendar(key, ...)  as pure transition functions
 \* =============================================================================================
+\* ---- the parameters of a registration (law level) ---------------------------------------------
+\* calendar(key | cal, holidays, weekend, t0, t1): every parameter is either NOT GIVEN or GIVEN, and a
+\* given holiday list / weekend may be EMPTY.  A parameter is a sequence: <<>> = not given, <<v>> =
+\* given with value v; P = [hol, wk, lo, hi].  "Registered with" (the statement) is read literally:
+\*   by key     the calendar described by the call: what is given, and for what is not given the
+\*              documented defaults (no holidays, Sat-Sun, 1900-01-01 .. 2300-01-01)
+\*   by object  calendar(cal, ...) derives from cal: what is given replaces, what is not given is cal's
+\* A call that gives nothing registers nothing new (by key: a fetch; by object: cal itself).
+TMin == Ord(1900, 1, 1)
+TMax == Ord(2300, 1, 1)
+Given(p) == p # <<>>
+ParamOr(p, dflt) == IF p = <<>> THEN dflt ELSE p[1]
+AnyGiven(P) == Given(P.hol) \/ Given(P.wk) \/ Given(P.lo) \/ Given(P.hi)
+NoParams == [hol |-> <<>>, wk |-> <<>>, lo |-> <<>>, hi |-> <<>>]
+RegisteredCfg(P) == [hol |-> ParamOr(P.hol, {}), wk |-> ParamOr(P.wk, {5, 6}), adj |-> "m",
+                     lo |-> ParamOr(P.lo, TMin), hi |-> ParamOr(P.hi, TMax)]
+\* (the convention of a derived calendar is not pinned by the statement: "?")
+DerivedCfg(c, P) == [hol |-> ParamOr(P.hol, c.hol), wk |-> ParamOr(P.wk, c.wk), adj |-> "?",
+                     lo |-> ParamOr(P.lo, c.lo), hi |-> ParamOr(P.hi, c.hi)]
+\* the configurations the statement speaks about: holidays inside a non-empty range
+WellCfg(c) == c.lo <= c.hi /\ \A d \in c.hol : InRange(c, d)
+\* a range short enough for its table to be written down (the default range has 146 098 days: its
+\* calendars are asked loop-path questions only)
+Bounded(c) == c.hi - c.lo <= 400
+
+\* ---- the mechanism: a heap of calendar objects and the module-level map key -> object ---------
 \* state  st = [heap |-> sequence of calendar objects, reg |-> [key -> position in heap, 0 = none]]
 \* object    = [key, cfg, status, pop, tab]
 \*    status "loose" (constructed with Calendar(...), never registered), "live" (what reg[key]
-\*    points to), "dead" (displaced from the registry; the statement says nothing about old handles)
+\*    points to), "dead" (displaced from the registry; the statement says nothing about old handles
+\*    until they are registered again with calendar(handle))
 \*    pop / tab: the lazily built table (mechanism): built from cfg at the first populating query
 NewObj(k, cfg, status) == [key |-> k, cfg |-> cfg, status |-> status, pop |-> FALSE, tab |-> <<>>]
 Displace(heap, k, keep) == [i \in DOMAIN heap |-> IF heap[i].key = k /\ heap[i].status = "live" /\ i # keep
                                                   THEN [heap[i] EXCEPT !.status = "dead"] ELSE heap[i]]
-\* calendar(k, holidays, weekend, t0, t1): always a new object, modified-following
+\* a new object with configuration cfg takes over key k
 DoRegister(st, k, cfg) ==
-    LET h == Append(Displace(st.heap, k, 0), NewObj(k, [cfg EXCEPT !.adj = "m"], "live"))
+    LET h == Append(Displace(st.heap, k, 0), NewObj(k, cfg, "live"))
     IN  [heap |-> h, reg |-> [st.reg EXCEPT ![k] = Len(h)]]
+\* calendar(k, ...) with at least one parameter given, or on a key that is not registered: always a new
+\* object (modified following); with nothing given on a registered key: no change
+DoRegisterKey(st, k, P) == IF st.reg[k] # 0 /\ ~AnyGiven(P) THEN st ELSE DoRegister(st, k, RegisteredCfg(P))
 \* Calendar(k, holidays, weekend, t0, t1, adj): an object outside the registry
 DoConstruct(st, k, cfg) == [st EXCEPT !.heap = Append(st.heap, NewObj(k, cfg, "loose"))]
 \* calendar(cal): the object itself is registered under its own key
@@ -192,10 +229,10 @@ DoRegisterObject(st, o) ==
     LET k == st.heap[o].key
         h == [Displace(st.heap, k, o) EXCEPT ![o].status = "live"]
     IN  [heap |-> h, reg |-> [st.reg EXCEPT ![k] = o]]
-\* calendar(cal, holidays = H): a new calendar under cal's key with the holidays H and cal's
-\* weekend and range (the convention of the new object is not pinned by the statement)
-DoRegisterObjectWith(st, o, H) ==
-    LET old == st.heap[o] IN DoRegister(st, old.key, [old.cfg EXCEPT !.hol = H])
+\* calendar(cal, ...) with at least one parameter given: a new calendar under cal's key derived from cal
+DoRegisterObjectWith(st, o, P) ==
+    IF ~AnyGiven(P) THEN DoRegisterObject(st, o)
+    ELSE LET old == st.heap[o] IN DoRegister(st, old.key, DerivedCfg(old.cfg, P))
 \* calendar(k) on a registered key: what the fetched calendar says about itself
 View(st, k) == LET c == st.heap[st.reg[k]].cfg IN [hol |-> SetToSortSeq(c.hol, <), wk |-> SetToSortSeq(c.wk, <), adj |-> c.adj]
 \* a query on object o (through calendar(k) or, for a loose object, through its handle)
